@@ -310,6 +310,8 @@ type Pair struct {
 
 func (p Pair) Sum() int { return p.A + len(p.B) }
 
+func (p *Pair) Inc() int { p.A++; return p.A }
+
 func Add(a, b int) int { return a + b }
 
 func Join(a, b string) string { return a + "+" + b }
